@@ -41,7 +41,7 @@ def problems(state, allow_missing_parent=False):
             active = [h for h in fs.heads.values() if h.status != FlowHeadStatus.INACTIVE]
             if not active and fs.status != FlowStatus.WAITING:
                 # the parked head of an immediately-finished activated flow is the only legal case
-                if not (fs.activated > 0 and all(h.position >= n for h in fs.heads.values()) and fs.heads):
+                if not (fs.activated > 0 and any(h.position >= n for h in fs.heads.values())):
                     out.append(("running-flow-without-waiting-head", f"flow {fs.flow_id} ({fs.status.name}) has no active head"))
             if len(fs.heads) > 1:
                 stats["forked"] += 1
@@ -130,7 +130,7 @@ def side_check(ex, prev, aev, nxt):
                         {"all": [f"{s}: {t}" for s, t in probs[:8]]})
 
 
-HOSTS = ["c07", "c05", "c06"]
+HOSTS = ["c07", "c05", "c06", "c10"]
 
 
 def run(rep, tier):
